@@ -36,12 +36,17 @@ theorem minified_then_defaults (p : Prefs) :
   cases p
   exact ⟨rfl, rfl⟩
 
-/-- T6.1e (byte-for-byte clause, model level): the text of a sheet is a function of the preference record, the
-serializer's own state and the DOM — so after `useDefaults()` the text is the default text whatever was assigned
-before, PROVIDED the serializer state is the same (`sl`, see `selectorLevel_is_state` below). -/
-theorem defaults_restore_output (p : Prefs) (sl : Nat) (s : Sheet) :
-    (useDefaults p).map (fun d => doSheet d sl s) = some (doSheet Prefs.default sl s) := by
+/-- T6.1e (byte-for-byte clause): the text of a sheet is a function of the preference record and the DOM ONLY — the
+`_selectorlevel` / `_selectors` an earlier serialization with `indentSpecificities` may have raised are not read
+(`do_CSSStyleSheet` starts from level 0 since 56f3433). So after `useDefaults()` the text is the default text whatever
+was assigned and serialized before, in whatever state `sl` the serializer object was left. -/
+theorem defaults_restore_output (p : Prefs) (sl sl' : Nat) (s : Sheet) :
+    (useDefaults p).map (fun d => doSheet d sl s) = some (doSheet Prefs.default sl' s) := by
   rw [useDefaults_total]; rfl
+
+/-- **(was finding C06-selectorlevel-leak, repaired)** the serializer's own state does not reach the text of a sheet -/
+theorem sheet_text_ignores_serializer_state (p : Prefs) (sl sl' : Nat) (s : Sheet) :
+    doSheet p sl s = doSheet p sl' s := rfl
 
 /-! ## T6.2 — layout preferences change white space only -/
 
@@ -56,15 +61,15 @@ exception if any). Guard `SheetOk`: nested objects are typed the way the parser 
 for emptiness is white-space-only (`Lemmas/OutSheetLayout.lean`). For declaration blocks that part of the guard is
 syntactic since the repair of `do_css_CSSStyleDeclaration`: `block_text_guard_is_syntactic` below. -/
 theorem layout_only (p : Prefs) (hp : WsPrefs p) (hc : ContentEq p Prefs.default) (hn : p.lineNumbers = false)
-    (sl : Nat) (s : Sheet) (ok : SheetOk p Prefs.default sl s) :
+    (sl : Nat) (s : Sheet) (ok : SheetOk p Prefs.default s) :
     (doSheet p sl s).map stripWs = (doSheet Prefs.default sl s).map stripWs :=
-  doSheet_layout hp default_wsPrefs hc sl hn rfl s ok
+  doSheet_layout hp default_wsPrefs hc sl sl hn rfl s ok
 
 /-- T6.2 for any two records that agree on the content preferences (all pairs of layout assignments at once) -/
 theorem layout_only_pair (p q : Prefs) (hp : WsPrefs p) (hq : WsPrefs q) (hc : ContentEq p q)
-    (hn : p.lineNumbers = false) (hn' : q.lineNumbers = false) (sl : Nat) (s : Sheet) (ok : SheetOk p q sl s) :
+    (hn : p.lineNumbers = false) (hn' : q.lineNumbers = false) (sl : Nat) (s : Sheet) (ok : SheetOk p q s) :
     (doSheet p sl s).map stripWs = (doSheet q sl s).map stripWs :=
-  doSheet_layout hp hq hc sl hn hn' s ok
+  doSheet_layout hp hq hc sl sl hn hn' s ok
 
 /-- T6.2 for one value / selector / media list, at any two nesting levels -/
 theorem layout_only_value (p q : Prefs) (hp : WsPrefs p) (hq : WsPrefs q) (hc : ContentEq p q) (lv lw : Nat) (o : Obj)
@@ -200,7 +205,7 @@ example : WsPrefs pTight ∧ ContentEq pTight Prefs.default ∧ pTight.lineNumbe
 
 example : doSheet pTight 0 exSheet = .ok [97, 32, 98, 123, 99, 58, 35, 97, 98, 99, 125] := rfl   -- `a b{c:#abc}`
 
-example : SheetOk pTight Prefs.default 0 exSheet := by
+example : SheetOk pTight Prefs.default exSheet := by
   have e1 : doDecl pTight 1 [.prop exProp] true = .ok [99, 58, 35, 97, 98, 99] := rfl
   have e2 : doDecl Prefs.default 1 [.prop exProp] true = .ok [99, 58, 32, 35, 97, 98, 99] := rfl
   refine ⟨⟨?_, ?_, ?_, ?_, ?_, ?_⟩, trivial⟩
@@ -262,16 +267,6 @@ theorem the_only_error_is_IndexError (e : Err) : e = .indexError := by
 theorem lineNumbers_without_separator (p : Prefs) (t : CssVerif.Proto.Cps) (h : p.lineSeparator = []) :
     lineNumbers p t = .ok t :=
   lineNumbers_empty_separator p t h
-
-/-- **finding C06-selectorlevel-leak**: the text depends on `_selectorlevel`, state of the serializer object that is not
-a preference and that `useDefaults()` therefore cannot restore (`indentSpecificities` raises it) -/
-theorem finding_selectorlevel_is_state :
-    doSheet Prefs.default 1 exSheet ≠ doSheet Prefs.default 0 exSheet := by
-  have a : doSheet Prefs.default 0 exSheet = .ok [97, 32, 98, 32, 123, 10, 32, 32, 32, 32, 99, 58, 32, 35, 97, 98, 99,
-    10, 32, 32, 32, 32, 125] := rfl
-  have b : doSheet Prefs.default 1 exSheet = .ok [32, 32, 32, 32, 97, 32, 98, 32, 123, 10, 32, 32, 32, 32, 32, 32, 32,
-    32, 99, 58, 32, 35, 97, 98, 99, 10, 32, 32, 32, 32, 32, 32, 32, 32, 125] := rfl
-  rw [a, b]; intro h; cases h
 
 /-- **finding C06-indent-inside-token**: `_indentblock` splits the text wherever the line separator occurs, also inside
 a comment: `a{x:y;/*c⏎d*/}` is written with the comment `/*c⏎    d*/` -/
